@@ -51,10 +51,19 @@ def make_world(seed, jitter):
                 if ex[0][0] > 800:
                     cands.append(("extended-start", [(ex[0][0] - rng.randint(420, 600), ex[0][1])] + ex[1:]))
                 cands.append(("extended-end", ex[:-1] + [(ex[-1][0], ex[-1][1] + rng.randint(420, 600))]))
+                # 5' end running far past the annotated start while the 3' end sits exactly at the annotated end and carries a tail
+                if t.strand == "+" and ex[0][0] > 800:
+                    cands.append(("extended-5prime-with-tail", [(ex[0][0] - rng.randint(420, 600), ex[0][1])] + ex[1:]))
+                if t.strand == "-":
+                    cands.append(("extended-5prime-with-tail", ex[:-1] + [(ex[-1][0], ex[-1][1] + rng.randint(420, 600))]))
                 for cls, e2 in cands:
                     if e2[0][0] < 10 or e2[-1][1] > w.chrom_len(t.chrom) - 10:
                         continue
-                    w.make_read(t.chrom, e2, truth={"src": t.id, "class": cls, "true_exons": e2}, flag=rng.choice((0, 16)))
+                    tail = {}
+                    if cls == "extended-5prime-with-tail":
+                        tail = {"polya": 30} if t.strand == "+" else {"polyt": 30}
+                    w.make_read(t.chrom, e2, truth={"src": t.id, "class": cls, "true_exons": e2, "strand": t.strand},
+                                flag=rng.choice((0, 16)) if not tail else (0 if t.strand == "+" else 16), **tail)
         for t in g.hidden:
             for _ in range(3):
                 r = w.read_from_transcript(t, mode="full", jitter=0, polya=False)
@@ -107,7 +116,7 @@ def run(chk, scratch):
     thorough = chk.tier == "thorough"
     chk.rule = ("worlds with multi-isoform, overlapping (shared exons) and antisense genes on both strands over 3 chromosomes; conforming reads derived from annotated "
                 "isoforms (exact, 5'/3'/both-side truncated, junction jitter <= delta, exonic indels, polyA/polyT at the 3' end, mono-exonic) and non-conforming reads "
-                "(skipped exon >= 150 bp, extra exon, retained intron, site shifted >= 110 bp, end extended >= 420 bp, hidden isoforms); matching presets x data types. "
+                "(skipped exon >= 150 bp, extra exon, retained intron, site shifted >= 110 bp, end extended >= 420 bp, 5' end extended >= 420 bp on a read whose 3' end carries a polyA/polyT tail, hidden isoforms); matching presets x data types. "
                 "non-trivial = distinct (isoform exon count, read mode, jitter, polyA, preset) among judged reads whose locus has >= 2 isoforms")
     jobs = []
     presets = ["exact", "precise", "default", "loose"]
@@ -201,13 +210,14 @@ def run(chk, scratch):
                 if loose == {T.id} and (atype not in ("unique", "unique_minor_difference") or reported != {T.id}):
                     chk.violation("only-compatible-isoform-not-unique:%s" % mode, "%s: read %s has %s as its only compatible isoform, reported %s on %s" %
                                   (desc, rd.name, T.id, atype, sorted(reported)[:4]), wit)
-            elif cls in ("skipped-exon", "extra-exon", "retained-intron", "shifted-site", "extended-start", "extended-end", "hidden-isoform"):
+            elif cls in ("skipped-exon", "extra-exon", "retained-intron", "shifted-site", "extended-start", "extended-end", "hidden-isoform",
+                         "extended-5prime-with-tail"):
                 if not overl:
                     continue
                 if all(compat.hard_difference(t.exons, aligned) for t in overl):
                     judged_n += 1
                     chk.note()
-                    chk.nontrivial.add((cls, preset))
+                    chk.nontrivial.add((cls, preset) if cls != "extended-5prime-with-tail" else (cls, preset, tr.get("strand")))
                     if atype in CONSISTENT:
                         evn = set(e.split(":")[0] for a in recs for e in transform_split(a.events))
                         mech = cls
